@@ -43,7 +43,8 @@ def candidates():
     global _CANDIDATES
     if _CANDIDATES is None:
         out = []
-        for p in sorted(glob.glob(os.path.join(core.CORPUS_DIR, "apksig", "*.apk"))):
+        for p in sorted(glob.glob(os.path.join(core.CORPUS_DIR, "apksig", "*.apk")) +
+                        glob.glob(os.path.join(core.CORPUS_DIR, "apksig-gen", "*.apk"))):
             try:
                 with zipfile.ZipFile(p) as z:
                     names = z.namelist()
@@ -152,7 +153,8 @@ def independent_verify(blob, sf):
 def plan(apk_name, sig_name):
     """-> dict(regions={name: (entry, bytes, lo, hi)}, kalg, cert) or (None, reason)"""
     from asn1crypto import cms
-    raw = open(os.path.join(core.CORPUS_DIR, "apksig", apk_name), "rb").read()
+    sub = "apksig-gen" if apk_name.startswith("gen-") else "apksig"
+    raw = open(os.path.join(core.CORPUS_DIR, sub, apk_name), "rb").read()
     try:
         ar = Archive(raw)
     except Exception as e:
@@ -189,7 +191,19 @@ def plan(apk_name, sig_name):
     o = _find_unique(blob, d)
     if o is not None:
         regions["sid"] = (sig_name, blob, o, o + len(d))
-    return {"raw": raw, "archive": ar, "regions": regions, "kalg": kalg, "cert": cert, "blob": blob, "sf": sf}, None
+    # the other signature blocks of the same archive (queried on the same APK object as "earlier work")
+    others = []
+    other_certs = []
+    for n in sorted(ent):
+        if n != sig_name and SIG_RE.search(n) and n.rsplit(".", 1)[0] + ".SF" in ent:
+            others.append(n)
+            try:
+                oc, _ = independent_verify(ent[n], ent[n.rsplit(".", 1)[0] + ".SF"])
+            except Exception:
+                oc = None
+            other_certs.append(oc)
+    return {"raw": raw, "archive": ar, "regions": regions, "kalg": kalg, "cert": cert, "blob": blob, "sf": sf,
+            "others": others, "cert_is_unique": cert not in other_certs}, None
 
 
 def equivalent(region, blob0, blob1):
@@ -214,26 +228,40 @@ def equivalent(region, blob0, blob1):
     return None
 
 
-def tamper(p, sig_name, region, off, val):
+def tamper(p, sig_name, region, off, val, max_sdk=None, others_first=False):
+    """One altered byte, archive re-written, then a short history of queries on ONE APK object:
+    (optionally the untouched blocks first,) the tampered block through get_certificate_der(block, max_sdk_version),
+    then get_certificates_v1()."""
     from androguard.core.apk import APK
     ename, data, lo, hi = p["regions"][region]
     d = bytearray(data)
     d[off] = val
     raw2 = p["archive"].rebuild(ename, bytes(d))
+    a = None
     try:
         a = APK(raw2, raw=True)
-        c = a.get_certificate_der(sig_name)
+        if others_first:
+            for o in p["others"]:
+                try:
+                    a.get_certificate_der(o, max_sdk) if max_sdk is not None else a.get_certificate_der(o)
+                except Exception:
+                    pass
+        c = a.get_certificate_der(sig_name, max_sdk) if max_sdk is not None else a.get_certificate_der(sig_name)
         detail = "none" if c is None else "certificate"
     except Exception as e:
         c = None
         detail = "exc:" + type(e).__name__
-    if c is not None:
-        # confirm through the second observation point too
+    if a is not None and (c is not None or p["cert_is_unique"]):
+        # the second observation point: the verified-certificate list must not contain the tampered block's certificate
         try:
-            v1 = a.get_certificates_v1()
+            v1 = [x.dump() for x in a.get_certificates_v1()]
         except Exception:
             v1 = []
-        detail += "+v1list=%d" % len(v1)
+        if c is None and p["cert_is_unique"] and p["cert"] in v1:
+            c = p["cert"]
+            detail = "certificate-in-v1-list-only"
+        elif c is not None:
+            detail += "+v1list=%d" % len(v1)
     return c, detail, bytes(d)
 
 
@@ -244,8 +272,11 @@ def worker(seed):
     cands = candidates()
     if not cands:
         raise HarnessError("no v1-signed APK in corpus/apksig")
-    if r.random() < 0.2:           # the few blocks with signed attributes would otherwise rarely be drawn
+    k = r.random()
+    if k < 0.2:                    # the few blocks with signed attributes would otherwise rarely be drawn
         cands = [c for c in cands if "signed-attrs" in c[0]] or cands
+    elif k < 0.45:                 # archives with several signature blocks / mixed key types (corpus/apksig-gen, see gen/mk_v1_apks.py)
+        cands = [c for c in cands if c[0].startswith("gen-")] or cands
     apk_name, sigs = r.choice(cands)
     sig_name = r.choice(sigs)
     p, why = plan(apk_name, sig_name)
@@ -284,7 +315,13 @@ def worker(seed):
             else:
                 vals = sorted({orig ^ (1 << fr.randrange(8)), (orig + 1 + fr.randrange(255)) % 256} - {orig})
             for val in vals:
-                c, detail, d2 = tamper(p, sig_name, region, off, val)
+                max_sdk = fr.choice([None, None, None, 23, 24, 30])
+                others_first = bool(p["others"]) and fr.random() < 0.5
+                c, detail, d2 = tamper(p, sig_name, region, off, val, max_sdk, others_first)
+                if others_first:
+                    fired["history:other-blocks-queried-first"] = fired.get("history:other-blocks-queried-first", 0) + 1
+                if max_sdk is not None:
+                    fired["history:max_sdk_version=%d" % max_sdk] = fired.get("history:max_sdk_version=%d" % max_sdk, 0) + 1
                 n += 1
                 fired[region] = fired.get(region, 0) + 1
                 outcomes[detail.split("+")[0]] = outcomes.get(detail.split("+")[0], 0) + 1
@@ -300,7 +337,7 @@ def worker(seed):
                 if sig not in problems:
                     problems[sig] = {"msg": f"{apk_name} {sig_name}: byte {off - lo} of {region} changed {orig:#04x} -> {val:#04x} "
                                             f"and a certificate is still reported ({detail})",
-                                     "fault": [region, off - lo, val]}
+                                     "fault": [region, off - lo, val, max_sdk, others_first]}
     case = {"seed": seed, "apk": apk_name, "sig": sig_name, "by_sig": {s: v["fault"] for s, v in problems.items()}} if problems else None
     sample = {"seed": seed, "apk": apk_name, "block": sig_name, "key": p["kalg"],
               "regions": {k: v[3] - v[2] for k, v in p["regions"].items()}, "values_per_offset": per_off, "offset_stride": stride,
@@ -322,9 +359,9 @@ def _check(apk_name, sig_name, fault):
     p, why = plan(apk_name, sig_name)
     if p is None:
         return None, why
-    region, roff, val = fault
+    region, roff, val, max_sdk, others_first = (list(fault) + [None, False])[:5]
     ename, data, lo, hi = p["regions"][region]
-    c, detail, d2 = tamper(p, sig_name, region, lo + roff, val)
+    c, detail, d2 = tamper(p, sig_name, region, lo + roff, val, max_sdk, others_first)
     if c is None:
         return None, detail
     if region != "sf" and equivalent(region, p["blob"], d2):
